@@ -35,6 +35,21 @@ def STRUCT(adt, variant, fields):
     return ('struct', adt, variant, tuple(fields))
 
 
+def _is_log_test(v):
+    """An opaque application that only involves the `log` crate: a level compared with a level filter, log::max_level(),
+    the enabled() query of the logger."""
+    if not isinstance(v, tuple):
+        return False
+    if v[0] == 'app':
+        nm = v[1]
+        if nm.startswith(('log::', 'Log::enabled')) or 'log::__private_api' in nm:
+            return True
+        if nm in ('PartialOrd::le', 'PartialOrd::lt', 'PartialOrd::ge', 'PartialOrd::gt', 'PartialEq::eq', 'PartialEq::ne') and v[2]:
+            r = repr(v[2])
+            return "'log::Level" in r or 'log::STATIC_MAX_LEVEL' in r or 'log::max_level' in r or 'log::LevelFilter' in r
+    return False
+
+
 def is_num(v):
     return isinstance(v, tuple) and v[0] == 'num'
 
@@ -595,12 +610,17 @@ class SymEx:
                         continue
                 is_bool = t['discr'].get('ty') == 'bool'
                 arms = list(t['arms'])
+                # "is this log level enabled?" (`lvl <= STATIC_MAX_LEVEL && lvl <= max_level()`, `log_enabled!`): both outcomes are
+                # explored, but the test says nothing about the program's values: tagged apart from the conditions on data
+                ctag = 'cond'
+                if is_bool and isinstance(d, tuple) and d[0] == 'app' and _is_log_test(d):
+                    ctag = 'logcond'
                 for v, b2 in arms:
                     s2 = st.fork()
                     iv = int(v)
                     s2.known[key] = iv
                     if is_bool:
-                        s2.pc.append(('cond', d, iv != 0))
+                        s2.pc.append((ctag, d, iv != 0))
                     else:
                         s2.pc.append(('switch', d, iv))
                     self._exec(body, fid, b2, s2, depth, outs, visits)
@@ -608,7 +628,7 @@ class SymEx:
                 if is_bool and len(arms) == 1:
                     other = 1 - int(arms[0][0])
                     st.known[key] = other
-                    st.pc.append(('cond', d, other != 0))
+                    st.pc.append((ctag, d, other != 0))
                 else:
                     st.known[key] = 'other'
                     st.pc.append(('switch-not', d, tuple(int(v) for v, _ in arms)))
@@ -786,7 +806,7 @@ class SymEx:
         for bv in (True, False):
             s2 = st.fork()
             s2.known[key] = 1 if bv else 0
-            s2.pc.append(('cond', c, bv))
+            s2.pc.append(('logcond' if (isinstance(c, tuple) and c[0] == 'app' and _is_log_test(c)) else 'cond', c, bv))
             out.append((s2, bv))
         return out
 
